@@ -3,6 +3,7 @@ import SfxProofs.ExpAccNeg
 import SfxProofs.ExpAccC15
 import SfxProofs.PowAccC15
 import SfxProofs.ExpAccWideC15
+import SfxProofs.PowAccWideC15
 import SfxProofs.PowAccNeg
 /-
   C15, the exp clause — what is true and what is false of the current tree, both proved:
@@ -19,6 +20,7 @@ import SfxProofs.PowAccNeg
       e^x·sum on the negative side.  `exp_holds_le_four` (|x| ≤ 4, sharper constants) is kept.  What remains unproved for exp is only
       the band between f/4 and the D10 threshold, judged by the search oracle on every run.
 
+    * `pow_holds_wide` : the pow clause, word for word, for `4·|y·ln x| + 2 ≤ f` and `|y| ≤ 2^f/32` (built on `exp_holds_wide`);
     * `pow_holds_small` : the pow clause, word for word, for every supported type, positive base and exponents with `|y·ln x| ≤ 7/2` and
       `|y| ≤ 2^f / 32` (the second hypothesis holds for EVERY exponent of a type with `intBits + 4 ≤ f`, e.g. I9F23, I16F48, I40F88:
       `PowAccPf.hY_auto`).  Error propagation: ln (C14) → truncated product → exp (|z| ≤ 4) closes inside the clause's 2^-18 relative margin.
@@ -29,7 +31,7 @@ import SfxProofs.PowAccNeg
       `exp(0)` early return (kernel-evaluated), the true value is `< 1/1000` and the allowed error is far smaller than 0.999.  Affected: types
       with `n ≥ 2f + 4` and exponents of magnitude above about `2^f/8`.  The witnesses are in corpus/C15.req and replayed on every run.
 
-  Not proved: exp for `f/4 < |x|` and pow for `7/2 < |y·ln x|` inside the region where the clauses are true; powi and the conventions are in
+  Not proved: exp for `f/4 < |x|` and pow for `f/4 − 1/2 < |y·ln x|` inside the region where the clauses are true; powi and the conventions are in
   SfxProps/C15.lean (`C15_partial`).
 -/
 namespace Sfx.C15
@@ -65,6 +67,15 @@ theorem pow_holds_small (D : Layout) (h : Supp D) (x y : Int) (hx : inRange D x)
         (1 / (2 : ℝ) ^ 18 + |val D.f y * Real.log (val D.f x)| / (2 : ℝ) ^ 22 + 16 * |val D.f y| / (2 : ℝ) ^ D.f) * (val D.f x) ^ (val D.f y)
           + 64 / (2 : ℝ) ^ D.f :=
   PowAccPf.C15_pow_partial D h x y hx hy hsmall hY
+
+/-- the pow clause for `4·|y·ln x| + 2 ≤ f`, `|y| ≤ 2^f/32` -/
+theorem pow_holds_wide (D : Layout) (h : Supp D) (x y : Int) (hx : inRange D x) (hy : inRange D y)
+    (hsmall : 4 * |val D.f y * Real.log (val D.f x)| + 2 ≤ (D.f : ℝ)) (hY : |val D.f y| * 32 ≤ (2 : ℝ) ^ D.f) :
+    ∀ r it dbg, 0 < x → Trans.run (Trans.pow D D x y) = .ok (some r, it) dbg →
+      |val D.f r - (val D.f x) ^ (val D.f y)| ≤
+        (1 / (2 : ℝ) ^ 18 + |val D.f y * Real.log (val D.f x)| / (2 : ℝ) ^ 22 + 16 * |val D.f y| / (2 : ℝ) ^ D.f) * (val D.f x) ^ (val D.f y)
+          + 64 / (2 : ℝ) ^ D.f :=
+  PowAccPf.C15_pow_wide D h x y hx hy hsmall hY
 
 /-- the pow clause fails at `pow::<I41F23>(1 + 2^-23, −2^26)` (finding D16) -/
 theorem pow_clause_counterexample :
